@@ -312,6 +312,7 @@ func init() {
 	addScoped("C09", "S4", in("internal_planner"), "(S4) an in-process stage stores into an entry's label map only after excluding marker / error entries, whose map is nil.")
 	addScoped("C09", "S3", in("internal_planner"), "(S3) an in-process stage that changes the labels of an entry stores the fingerprint of the new label set on every path, so distinct label sets stay distinct series and equal ones are one.")
 	addScoped("C11", "D10", in("reader/traceql/"), d10)
+	addScoped("C17", "G2", in("reader/service"), "(G2) the date bounds of the label fetch that gives every selected series its label set: the start-minus-30-minutes formatter only as a lower bound (as an upper bound a window ending just after midnight UTC misses the day's series rows and the series reach the engine without labels).")
 	addScoped("C11", "D12", in("reader/traceql"), "(D12) positions read from the term interning table and positions derived from the term list length are stored into plan nodes with one base.")
 	addScoped("C11", "D11", in("reader/traceql/"), "(D11) an attribute aggregate's operand rows are kept by an unconditional `key == attr` alternative of the scan filter, for the same attribute.")
 	addScoped("C11", "D13", in("reader/traceql/"), "(D13) a comparison over a defaulting cast (`toFloat64OrZero(val)`, 0 for values that do not parse) is only ever a conjunct next to the parse test `isNotNull(toFloat64OrNull(val))` of the same expression, so attributes that are not numbers never satisfy a numeric term.")
